@@ -88,7 +88,8 @@ class TwoPortStub(Module):
         self.wacc, self.racc = wacc, racc
 
 
-def fifo_bench(name, with_bypass=False, nwords=4, data_width=8, port_dw=8, pre=2, post=2, bit=None, core_only=None):
+def fifo_bench(name, with_bypass=False, nwords=4, data_width=8, port_dw=8, pre=2, post=2, bit=None, core_only=None, dma=None):
+    from litedram.frontend import fifo as fifo_mod
     from litedram.frontend.fifo import LiteDRAMFIFO, _LiteDRAMFIFO
     aw = 4
     wp = LiteDRAMNativePort("write", aw, port_dw)
@@ -102,8 +103,15 @@ def fifo_bench(name, with_bypass=False, nwords=4, data_width=8, port_dw=8, pre=2
         dut = _LiteDRAMFIFO(data_width=port_dw, base=0, depth=nwords, write_port=wp, read_port=rp,
                             writer_fifo_depth=core_only, reader_fifo_depth=core_only)
     else:
-        dut = LiteDRAMFIFO(data_width=data_width, base=0, depth=nwords * (port_dw // 8), write_port=wp, read_port=rp,
-                           with_bypass=with_bypass, pre_fifo_depth=pre, post_fifo_depth=post)
+        # LiteDRAMFIFO does not forward the DMA FIFO depths of the inner _LiteDRAMFIFO; `dma` sets them through the inner
+        # class's own keyword arguments so that a full DRAM round trip fits in the BMC window (everything else is the real code)
+        if dma:
+            fifo_mod._LiteDRAMFIFO = partial(_LiteDRAMFIFO, writer_fifo_depth=dma, reader_fifo_depth=dma)
+        try:
+            dut = LiteDRAMFIFO(data_width=data_width, base=0, depth=nwords * (port_dw // 8), write_port=wp, read_port=rp,
+                               with_bypass=with_bypass, pre_fifo_depth=pre, post_fifo_depth=post)
+        finally:
+            fifo_mod._LiteDRAMFIFO = _LiteDRAMFIFO
     top.submodules.dut = dut
     B = Signal(max=data_width, name_override="BITSEL")
     # position of the watched bit inside the port word: the same lane of the first narrow word (ratio 1 in these benches)
@@ -158,6 +166,7 @@ def fifo_bench(name, with_bypass=False, nwords=4, data_width=8, port_dw=8, pre=2
 CONFIGS = {
     "core_4words_dma2_bit0": (dict(core_only=2, bit=0), 14, 20, "qt"),
     "core_2words_dma2_bit5": (dict(core_only=2, nwords=2, bit=5), 14, 20, "qt"),
+    "bypass_2words_dma2_bit0": (dict(with_bypass=True, nwords=2, dma=2, bit=0), 16, 24, "qt"),
     "nobypass_4words_bit0": (dict(with_bypass=False, bit=0), 0, 18, "t"),
     "bypass_4words_bit0": (dict(with_bypass=True, bit=0), 0, 18, "t"),
     "bypass_4words_bit7": (dict(with_bypass=True, bit=7), 0, 18, "t"),
